@@ -111,6 +111,22 @@ func c15Image(t map[string]any) (*memdev.Dev, int64) {
 			}
 		}
 		return d, lss
+	case "rescale":
+		d, size := c15Base(512)
+		es, _ := strconv.Atoi(str(t, "esize"))
+		offs := []int64{512}
+		if str(t, "copy") == "both" {
+			offs = append(offs, size-512)
+		}
+		for _, off := range offs {
+			h := d.Bytes(off, 512)
+			binary.LittleEndian.PutUint32(h[80:84], uint32(128*128/es))
+			binary.LittleEndian.PutUint32(h[84:88], uint32(es))
+			binary.LittleEndian.PutUint32(h[16:20], 0)
+			binary.LittleEndian.PutUint32(h[16:20], crc32.ChecksumIEEE(h[0:92]))
+			d.WriteAt(h, off)
+		}
+		return d, 512
 	case "trunc":
 		d, size := c15Base(lss)
 		arr := 128 * 128 / lss
